@@ -27,7 +27,24 @@ pub const ENTRIES: &[&str] = &[
     "decode_with_cache",
     "decode_fragment_header",
     "decode_fragment_cont",
+    "decode_with_atom_cache(cache-of-a-running-connection)",
 ];
+
+/// Three valid messages of a conforming sender that fill an atom cache the way a running connection does (17 entries
+/// over two segments, the last message referring to old entries only).
+fn priming_messages() -> &'static Vec<Vec<u8>> {
+    use crate::refmodel::dist::{AtomRef, write_message};
+    use crate::refmodel::val::Val;
+    static M: std::sync::OnceLock<Vec<Vec<u8>>> = std::sync::OnceLock::new();
+    M.get_or_init(|| {
+        let r = |a: &str, seg: u8, i: u8, new_entry: bool| AtomRef { atom: a.to_string(), segment: seg, internal: i, new_entry };
+        let first: Vec<AtomRef> = (0..12u8).map(|i| r(&format!("p{}", i), 0, i, true)).collect();
+        let second: Vec<AtomRef> = (0..5u8).map(|i| r(&format!("q{}", i), 1, i * 3, true)).collect();
+        let third: Vec<AtomRef> = vec![r("p0", 0, 0, false), r("q1", 1, 3, false), r("p11", 0, 11, false)];
+        let tup = |rs: &[AtomRef]| Val::Tuple(rs.iter().map(|x| Val::atom(&x.atom)).collect());
+        vec![write_message(&first, &[&tup(&first)]), write_message(&second, &[&tup(&second)]), write_message(&third, &[&tup(&third)])]
+    })
+}
 
 #[derive(Clone)]
 pub enum Case {
@@ -92,7 +109,14 @@ fn run_entry(entry: usize, data: &[u8]) -> (char, usize, usize) {
         4 => erltf::decoder::decode_raw_term(if data.is_empty() { data } else { &data[1..] }).is_ok(),
         5 => erltf::decoder::decode_with_cache(data).is_ok(),
         6 => erltf::decoder::decode_fragment_header(data).is_ok(),
-        _ => erltf::decoder::decode_fragment_cont(data).is_ok(),
+        7 => erltf::decoder::decode_fragment_cont(data).is_ok(),
+        _ => {
+            let mut cache = erltf::AtomCache::new();
+            for m in priming_messages() {
+                let _ = erltf::decode_with_atom_cache(m, &mut cache);
+            }
+            erltf::decode_with_atom_cache(data, &mut cache).is_ok()
+        }
     });
     let (peak, largest) = alloc::end();
     let o = match r {
@@ -438,6 +462,50 @@ fn corpus_cases(ctx: &Ctx, rng: &mut Rng) -> Vec<Case> {
             }
             d.extend_from_slice(&b[1..]);
             out.push(Case::Bytes("corpus/hostile-dist-header".into(), d));
+        }
+    }
+    // cache references in every position against headers with few references: indices inside the header, just past
+    // it, inside what an earlier message left in the cache, and far out; headers whose references are old entries
+    // (resolvable only on a running connection), new ones, or a mix
+    for k in [0usize, 1, 2, 3, 5] {
+        for variant in 0..4 {
+            let mut d = vec![131u8, 68, k as u8];
+            if k > 0 {
+                let mut flags = vec![0u8; k / 2 + 1];
+                let mut body = Vec::new();
+                for i in 0..k {
+                    let new_entry = match variant {
+                        0 => true,
+                        1 => false,
+                        _ => i % 2 == 0,
+                    };
+                    let seg = if variant == 3 { 1u8 } else { 0 };
+                    let nib = seg | if new_entry { 8 } else { 0 };
+                    flags[i / 2] |= if i % 2 == 0 { nib } else { nib << 4 };
+                    body.push((i * 3) as u8);
+                    if new_entry {
+                        body.extend_from_slice(&[2, b'z', b'0' + i as u8]);
+                    }
+                }
+                d.extend_from_slice(&flags);
+                d.extend_from_slice(&body);
+            }
+            for idx in (0u8..24).chain([100, 200, 254, 255]) {
+                for shape in 0..4 {
+                    let mut m = d.clone();
+                    match shape {
+                        0 => m.extend_from_slice(&[82, idx]),
+                        1 => m.extend_from_slice(&[104, 2, 82, 0, 82, idx]),
+                        2 => m.extend_from_slice(&[116, 0, 0, 0, 1, 82, idx, 97, 1]),
+                        _ => m.extend_from_slice(&[88, 82, idx, 0, 0, 0, 1, 0, 0, 0, 2, 0, 0, 0, 3]),
+                    }
+                    if shape == 1 {
+                        // a payload term behind the control term
+                        m.extend_from_slice(&[131, 82, idx]);
+                    }
+                    out.push(Case::Bytes(format!("cache-ref-grid/{}refs/{}", k, ["new", "old", "mixed", "other-segment"][variant]), m));
+                }
+            }
         }
     }
     // valid maps keyed by sibling values (numbers of every representation that are neighbours or far apart in
